@@ -197,6 +197,8 @@ def run(tier: str) -> int:
     run_family_p(chk, tier)
     run_family_v(chk, tier, sorted(seen))
     run_family_r(chk, tier)
+    from harness import inline
+    inline.judge(chk, tier, "C01")
     for id_ in list(metas)[:: max(1, len(metas) // 4)][:4]:
         chk.sample({k: metas[id_][k] for k in ("fam", "toks", "src", "opts", "out")})
     chk.exhaustive = True
